@@ -162,6 +162,10 @@ func init() {
 			k.MaxScopes = 4
 			k.WDecorate = 1
 			k.PCycleKeep = 0
+			// the duplicate rule must also hold after registrations that dig
+			// rejected as cycles (in the target scope or below it)
+			k.WCycleCloser, k.WShadowCycle = 2, 1
+			k.PFocus = 45
 			return k
 		},
 		clauses: []string{CVerdictProvide, CProvSingle, CFromNowhere, CVerdictInvoke, CGroupForeign, CGroupMultiset, CZeroAvailable},
